@@ -103,8 +103,21 @@ func (pc *PubkeyCache) unsafeValidatorIndex(pubkey BLSPubkey) (index ValidatorIn
 // AddValidator appends the (index, pubkey) pair to the pubkey cache. It returns the same cache if the added entry is not conflicting.
 // If it conflicts, the part is inherited, and a forked pubkey cache is returned.
 func (pc *PubkeyCache) AddValidator(index ValidatorIndex, pub BLSPubkey) (*PubkeyCache, error) {
-	existingIndex, indexExists := pc.ValidatorIndex(pub)
-	existingPubkey, pubkeyExists := pc.Pubkey(index)
+	out, forked, err := pc.addValidator(index, pub)
+	if forked {
+		// This cache is unlocked again, the forked cache (with this cache as parent) takes it from here.
+		return out.AddValidator(index, pub)
+	}
+	return out, err
+}
+
+// addValidator checks and appends under a single write-lock, so that concurrent additions cannot interleave.
+// If the pair conflicts, the cache to continue with is returned, with forked == true.
+func (pc *PubkeyCache) addValidator(index ValidatorIndex, pub BLSPubkey) (out *PubkeyCache, forked bool, err error) {
+	pc.rwLock.Lock()
+	defer pc.rwLock.Unlock()
+	existingIndex, indexExists := pc.unsafeValidatorIndex(pub)
+	existingPubkey, pubkeyExists := pc.unsafePubkey(index)
 
 	if indexExists {
 		if existingIndex != index {
@@ -116,8 +129,7 @@ func (pc *PubkeyCache) AddValidator(index ValidatorIndex, pub BLSPubkey) (*Pubke
 				pub2idx:            make(map[BLSPubkey]ValidatorIndex),
 				idx2pub:            make([]*CachedPubkey, 0),
 			}
-			// Do not have to unlock this cache (parent of forkedPc) early, as the forkedPc is guaranteed to handle it.
-			return forkedPc.AddValidator(index, pub)
+			return forkedPc, true, nil
 		}
 		if pubkeyExists {
 			if existingPubkey.Compressed != pub {
@@ -129,12 +141,11 @@ func (pc *PubkeyCache) AddValidator(index ValidatorIndex, pub BLSPubkey) (*Pubke
 					pub2idx:            make(map[BLSPubkey]ValidatorIndex),
 					idx2pub:            make([]*CachedPubkey, 0),
 				}
-				// Do not have to unlock this cache (parent of forkedPc) early, as the forkedPc is guaranteed to handle it.
-				return forkedPc.AddValidator(index, pub)
+				return forkedPc, true, nil
 			}
 		}
 		// append is no-op, validator already exists
-		return pc, nil
+		return pc, false, nil
 	}
 	if pubkeyExists {
 		if existingPubkey.Compressed != pub {
@@ -146,17 +157,14 @@ func (pc *PubkeyCache) AddValidator(index ValidatorIndex, pub BLSPubkey) (*Pubke
 				pub2idx:            make(map[BLSPubkey]ValidatorIndex),
 				idx2pub:            make([]*CachedPubkey, 0),
 			}
-			// Do not have to unlock this cache (parent of forkedPc) early, as the forkedPc is guaranteed to handle it.
-			return forkedPc.AddValidator(index, pub)
+			return forkedPc, true, nil
 		}
 	}
-	pc.rwLock.Lock()
-	defer pc.rwLock.Unlock()
 	if expected := pc.trustedParentCount + ValidatorIndex(len(pc.idx2pub)); index != expected {
 		// index is unknown, but too far ahead of cache; in between indices are missing.
-		return nil, fmt.Errorf("AddValidator is incorrect, missing earlier index. got: (%d, %x), but currently expecting %d next", index, pub, expected)
+		return nil, false, fmt.Errorf("AddValidator is incorrect, missing earlier index. got: (%d, %x), but currently expecting %d next", index, pub, expected)
 	}
 	pc.idx2pub = append(pc.idx2pub, &CachedPubkey{Compressed: pub})
 	pc.pub2idx[pub] = index
-	return pc, nil
+	return pc, false, nil
 }
